@@ -165,7 +165,7 @@ def entry_points(rng):
 def run(ctx):
     cfg = nap.nap_config
     old = (cfg.suppress_conversion_warnings, cfg.suppress_time_index_sorting_warnings)
-    rounds = 6 if ctx.quick else 120
+    rounds = 15 if ctx.quick else 200
     try:
         for r in range(rounds):
             E, desc = entry_points(ctx.rng)
